@@ -32,6 +32,15 @@ Theorem C07_excl_invariant : forall evs : list event, excl (handlers (run evs)) 
 Proof. exact excl_invariant. Qed.
 Print Assumptions C07_excl_invariant.
 
+(* `running` has to be the whole tomb set: a pass that hides some executing task from the predicates (e.g. one whose
+   status became Abort while its handler is still executing) starts a conflicting task next to it *)
+Theorem C07_status_filtered_running_refuted :
+  exists (tb : tombs) (vis : task -> bool) (cs : list cand),
+    excl (handlers tb) = true /\
+    excl (handlers (ensure_loop tb (List.filter vis (map fst tb)) cs)) = false.
+Proof. exact status_filtered_running_refuted. Qed.
+Print Assumptions C07_status_filtered_running_refuted.
+
 (* the same for the property's own notion of the serialized kinds (spec_conflict names the kinds literally): the kinds
    extracted from the code cover them. gen_covers_spec is evaluated on the regenerated gen/BlockedKinds.v on every run,
    so dropping a kind from ifacestate's taskKinds (or renaming a literal in a predicate) breaks this theorem *)
